@@ -76,7 +76,7 @@ type reqSpec struct {
 }
 
 type op struct {
-	K       string    `json:"k"` // fund cbfund spend mine reorg lock unlock lease release tick req
+	K       string    `json:"k"` // fund cbfund spend mine reorg lock unlock lease release tick abandon publish req
 	Outs    []fundOut `json:"outs,omitempty"`
 	Conf    bool      `json:"conf,omitempty"`
 	Coins   []int     `json:"coins,omitempty"`
@@ -87,6 +87,9 @@ type op struct {
 	ID      int       `json:"id,omitempty"`
 	Dur     int       `json:"dur,omitempty"`
 	Dt      int       `json:"dt,omitempty"`
+	Double  bool      `json:"double,omitempty"` // spend: outputs already spent by UNCONFIRMED transactions may be spent again
+	Tx      int       `json:"tx,omitempty"`     // abandon: selector of a known unconfirmed transaction; publish: of a held one
+	Reject  bool      `json:"reject,omitempty"` // publish: the backend rejects the broadcast
 	Req     *reqSpec  `json:"req,omitempty"`
 }
 
@@ -169,6 +172,8 @@ type trace struct {
 	// scripts of outputs the harness asked for (to tell them from change)
 	requested map[string]bool
 	problem   string
+	// signed transactions the wallet created and nobody has published yet
+	held []*wire.MsgTx
 }
 
 var epoch = time.Unix(1700000000, 0)
@@ -444,7 +449,10 @@ func (t *trace) exec(o op) error {
 			for _, s := range o.Coins {
 				c := t.coinSel(s)
 				// only outputs nobody spends: a node relays no conflicts of confirmed transactions
-				if c == nil || !c.from.alive || seen[c.op] || t.L.spender(c.op, nil) != nil {
+				if c == nil || !c.from.alive || seen[c.op] {
+					continue
+				}
+				if sp := t.L.spender(c.op, nil); sp != nil && !(o.Double && !t.L.confirmedSpender(c.op)) {
 					continue
 				}
 				if o.Conf && c.from.height < 0 {
@@ -566,6 +574,52 @@ func (t *trace) exec(o op) error {
 	case "tick":
 		t.L.now = t.L.now.Add(time.Duration(o.Dt) * time.Second)
 		t.clk.SetTime(t.L.now)
+		return nil
+	case "abandon":
+		// forget a known unconfirmed transaction (Wallet.RemoveDescendants
+		// runs Store.RemoveUnminedTx on the transaction itself)
+		var cand []*ltx
+		for _, u := range t.L.txs {
+			if u.alive && u.height < 0 {
+				cand = append(cand, u)
+			}
+		}
+		if len(cand) == 0 || o.Tx < 0 {
+			return nil
+		}
+		u := cand[o.Tx%len(cand)]
+		if err := t.w.RemoveDescendants(u.tx); err != nil {
+			return err
+		}
+		t.L.kill(u)
+		return nil
+	case "publish":
+		// hand a transaction created earlier (CreateSimpleTx, not a dry run)
+		// to the backend now
+		if len(t.held) == 0 || o.Tx < 0 {
+			return nil
+		}
+		i := o.Tx % len(t.held)
+		tx := t.held[i]
+		t.held = append(t.held[:i:i], t.held[i+1:]...)
+		// a node relays no conflict of a confirmed transaction and nothing
+		// that spends outputs it does not know
+		for _, in := range tx.TxIn {
+			if t.L.confirmedSpender(in.PreviousOutPoint) || t.L.liveCoin(in.PreviousOutPoint) == nil {
+				return nil
+			}
+		}
+		if o.Reject {
+			t.ch.NextSend = []simchain.SendAnswer{simchain.Reject}
+		}
+		err := t.w.PublishTransaction(tx, "")
+		t.ch.NextSend = nil
+		if err == nil {
+			t.recordPublished(tx)
+			t.tags["published_later"] = true
+		} else {
+			t.tags["publish_later_rejected"] = true
+		}
 		return nil
 	case "req":
 		if o.Req == nil {
@@ -1020,6 +1074,8 @@ func (t *trace) request(rs *reqSpec) error {
 	}
 	switch {
 	case tx == nil || rejected:
+	case rs.API == "create" && !rs.Dry && !publish && clean:
+		t.held = append(t.held, tx)
 	case rs.API == "send" || rs.API == "sendwith":
 		t.recordPublished(tx)
 		t.tags["published"] = true
